@@ -18,6 +18,7 @@ def check(tree, rep, tier='quick', seed=0):
     R.k12c_who_calls(core, rep)
     R.k2_signal_discipline(core, rep)    # no handler on the solve path turns a failing line into a silently missing one
     R.k24_tracker_shape(core, rep, parts=('a', 'b'))   # a registered waiter is never dropped: its line would be missing from a 'solved' return
+    R.k24e_waiters_only_tracker_mutates(core, rep)     # ... nor removed from the tracker's list by whoever is handed that list (the prompt callback)
     R.k13_add_form(core, rep)
     R.k14_solution_lists_all(core, rep)
     R.k26_cli_requested_forms(core, rep)
